@@ -281,3 +281,33 @@ Definition options_eqb (a b : options) : bool :=
 Definition callLimit (o : options) : Z :=
   if oMinimize o then autoCap (oCallStackSize o) else oCallStackSize o.
 Definition regLimit (o : options) : Z := Z.max (oRegistrySize o) (oRegistryMaxSize o).
+
+(* ---------------------------------------------------------------------------------------------- *)
+(* Representation relations used in the statements of the refinement theorems.                     *)
+
+(* the fixed stack s stands for the list l *)
+Definition Rf (s : fstack) (l : list Z) : Prop :=
+  fsp s = len l /\ len l <= len (farr s) /\
+  forall i, 0 <= i < len l -> nthF (farr s) i = lframe l i.
+
+Definition segRaw (sg : list (option (list frame))) (i : Z) : option (option (list frame)) :=
+  if i <? 0 then None else nth_error sg (Z.to_nat i).
+
+(* the segment bookkeeping invariant together with the abstraction to the list *)
+Record Ra (s : astack) (l : list Z) : Prop := mkRa {
+  ra_nseg : 1 <= nseg s;
+  ra_idx : 0 <= segIdx s < nseg s;
+  ra_sp : 0 <= segSp s <= FramesPerSegment;
+  ra_len : len l = segSp s + segIdx s * FramesPerSegment;
+  ra_live : forall i, 0 <= i <= segIdx s -> exists g, segRaw (segs s) i = Some (Some g) /\ len g = FramesPerSegment;
+  ra_dead : forall i, segIdx s < i < nseg s -> segRaw (segs s) i = Some None;
+  ra_frames : forall j, 0 <= j < len l ->
+      exists g, segRaw (segs s) (j / FramesPerSegment) = Some (Some g) /\
+                nthF g (j mod FramesPerSegment) = lframe l j
+}.
+
+
+(* what NewState guarantees about the options it stores *)
+Definition normal (o : options) : Prop :=
+  1 <= oCallStackSize o /\ 128 <= oRegistrySize o /\
+  (oRegistryMaxSize o = 0 \/ (oRegistrySize o <= oRegistryMaxSize o /\ 1 <= oRegistryGrowStep o)).
